@@ -23,7 +23,7 @@ def bits_pickRandom_reads_last_elem : Bool := true
 def bits_setIndex_guard : String := "i >= bA.Bits"
 
 /-- has libs/bits/bit_array.go BitArray.Sub -/
-def bits_sub_loop_bound : Bool := true
+def bits_sub_loop_bound : Bool := false
 
 /-- cond libs/bits/bit_array.go BitArray.ValidateBasic -/
 def bits_validate_elems_guard : String := "len(bA.Elems) != expected"
@@ -334,14 +334,26 @@ def c13_light_early_return : String := "talliedVotingPower > votingPowerNeeded"
 /-- const blockchain/v0/pool.go maxDiffBetweenCurrentAndReceivedBlockHeight -/
 def c13_maxDiffBetweenCurrentAndReceivedBlockHeight : Int := 100
 
+/-- const blockchain/v0/pool.go maxPendingRequests -/
+def c13_maxPendingRequests : Int := 600
+
 /-- const blockchain/v0/pool.go maxPendingRequestsPerPeer -/
 def c13_maxPendingRequestsPerPeer : Int := 20
+
+/-- const blockchain/v0/pool.go maxTotalRequesters -/
+def c13_maxTotalRequesters : Int := 600
 
 /-- cond blockchain/v0/pool.go BlockPool.pickIncrAvailablePeer -/
 def c13_pick_range_guard : String := "height < peer.base || height > peer.height"
 
 /-- order consensus/state.go State.reconstructLastCommit -/
 def c13_reconstruct_calls : List String := ["LoadSeenCommit", "CommitToVoteSet", "HasTwoThirdsMajority"]
+
+/-- cond blockchain/v0/pool.go bpRequester.reset -/
+def c13_reset_guard : String := "bpr.block != nil"
+
+/-- has blockchain/v0/pool.go BlockPool.makeRequestersRoutine -/
+def c13_routine_guards : Bool := true
 
 /-- cond blockchain/v0/pool.go bpRequester.setBlock -/
 def c13_setBlock_guard : String := "bpr.block != nil || bpr.peerID != peerID"
@@ -739,6 +751,9 @@ def mempoolV1_victim : String := "cw.priority < priority"
 /-- const crypto/merkle/proof.go MaxAunts -/
 def merkle_MaxAunts : Int := 100
 
+/-- has p2p/peer.go createMConnection -/
+def peer_onReceive_clones_message_type : Bool := true
+
 /-- const p2p/pex/pex_reactor.go maxAddressSize -/
 def pex_maxAddressSize : Int := 256
 
@@ -799,6 +814,6 @@ def types_MaxBlockPartsCount : Int := 1601
 /-- const types/vote_set.go MaxVotesCount -/
 def types_MaxVotesCount : Int := 10000
 
-def factCount : Nat := 266
+def factCount : Nat := 271
 
 end Tmv.Facts
